@@ -262,7 +262,7 @@ fn gen_crit(rng: &mut Rng, mesh: &M, nrefs: usize) -> Crit {
                 _ => size * rng.log_uniform(0.01, 0.6),
             },
             planar: if rng.chance(0.4) { Some(if rng.chance(0.1) { 0.0 } else { size * rng.log_uniform(0.001, 0.3) }) } else { None },
-            angle: if rng.chance(0.6) { Some(match rng.below(12) { 0 => 0.0, 1 => 4.0, _ => rng.uniform(0.1, 3.0) }) } else { None },
+            angle: if rng.chance(0.6) { Some(match rng.below(14) { 0 => 0.0, 1 => 4.0, 2 => std::f64::consts::FRAC_PI_2, 3 => std::f64::consts::PI, _ => rng.uniform(0.1, 3.0) }) } else { None },
         }
     }
 }
